@@ -120,7 +120,9 @@ def _run_stream(w, ftm, ident, choices, clock0):
         line = e[3] if len(e) > 3 else inv.frame.f_lineno
         inv.frame.f_lineno = line
         w.now["i"] = i
-        w.clock.t = clock0 + i
+        w.tick += 1
+        w.clock.t = w.tick
+        w.idx_of[w.tick] = i
         n_log, n_push = len(w.log), len(w.push.snapshots)
         w.event(inv.frame, kind, arg)
         for entry in w.log[n_log:]:
@@ -165,7 +167,7 @@ def _monitor(tpset, ev, invs, opens, closes, pushes, w):
         # each snapshot carries the context id of its trigger in its attributes; match by order of triggering
         seen_inv = set()
         for (pi, pinv, s) in got:
-            ts_idx = s.ts_nanos - w.clock0
+            ts_idx = w.idx_of.get(s.ts_nanos, -1)
             trig = [inv for (i, inv) in fcalls if i == ts_idx]
             if len(trig) != 1:
                 return "C15:method-capture-unknown-trigger"
@@ -195,7 +197,7 @@ def _monitor(tpset, ev, invs, opens, closes, pushes, w):
             return "C15:line-capture-snapshot-" + ("lost" if len(got) < n_l1 else "duplicated")
         l1 = [(i, e[1]) for i, e in enumerate(ev) if e[0] == "line" and len(e) > 3 and e[3] == 1]
         for (pi, pinv, s) in got:
-            ts_idx = s.ts_nanos - w.clock0
+            ts_idx = w.idx_of.get(s.ts_nanos, -1)
             trig = [inv for (i, inv) in l1 if i == ts_idx]
             if len(trig) != 1:
                 return "C15:line-capture-unknown-trigger"
@@ -213,6 +215,8 @@ def _setup(tpset):
     w = World(plugin_list=[P["RecSpanProcessor"](log)])
     w.log = log
     w.clock0 = 1000
+    w.tick = 0          # one global, strictly increasing clock: one instant per delivered event
+    w.idx_of = {}       # instant -> index of the event inside its thread's stream
     ftm = FakeThreadingMod()
     tl.threading = ftm
     w.install(_triggers(tpset))
@@ -299,6 +303,63 @@ def _mut_method_end_accepts_line():
     CallbackContext._CallbackContext__check_at_method_end = lambda self, event: event in ("exception", "return", "line")
 
 
+def _deliver(w, ftm, ident, ev, lo, hi, clock0, rec):
+    """Deliver events ev[lo:hi] of one thread's stream; recordings use the thread's own event indexes."""
+    ftm.cur = FakeThread(ident)
+    opens, closes, pushes = rec
+    for i in range(lo, hi):
+        e = ev[i]
+        kind, inv, arg = e[0], e[1], e[2]
+        inv.frame.f_lineno = e[3] if len(e) > 3 else inv.frame.f_lineno
+        w.tick += 1
+        w.clock.t = w.tick
+        w.idx_of[w.tick] = i
+        n_log, n_push = len(w.log), len(w.push.snapshots)
+        w.event(inv.frame, kind, arg)
+        for entry in w.log[n_log:]:
+            (opens if entry[0] == "open" else closes).setdefault((entry[3], entry[2]), []).append((i, inv))
+        for s_ in w.push.snapshots[n_push:]:
+            pushes.setdefault(s_.tracepoint.id, []).append((i, inv, s_))
+
+
+def interleaved(tp: int, a1: int, a2: int, a3: int, b1: int, b2: int, ka: int) -> str:
+    """
+    Two LIVE threads: thread A runs its first ka events, then thread B runs its whole stream, then A finishes. Each
+    thread's deferred work is completed in it, once, within its invocation - whatever the other thread does meanwhile.
+    PRE: tp in (0, 1, 2, 3) and 0 <= a1 <= 6 and 0 <= a2 <= 6 and 0 <= a3 <= 6 and 0 <= b1 <= 6 and 0 <= b2 <= 6 and 1 <= ka <= 4
+    POST: _ == ""
+    """
+    world.begin_path()
+    v = [world.realize(x) for x in (tp, a1, a2, a3, b1, b2, ka)]
+    tpset = TP_SETS[v[0]]
+    w, ftm = _setup(tpset)
+    eva, invsa = expand(v[1:4])
+    evb, invsb = expand(v[4:6])
+    ka_ = min(v[6], len(eva))
+    ra, rb = ({}, {}, {}), ({}, {}, {})
+    try:
+        _deliver(w, ftm, 1, eva, 0, ka_, 1000, ra)
+        _deliver(w, ftm, 2, evb, 0, len(evb), 5000, rb)
+        _deliver(w, ftm, 1, eva, ka_, len(eva), 1000, ra)
+    except BaseException as e:  # noqa
+        if world.is_engine_exc(e):
+            raise
+        world.reached()
+        return "C15:handler-raised:" + type(e).__name__
+    world.reached()
+    w.clock0 = 1000
+    r = _monitor(tpset, eva, invsa, ra[0], ra[1], ra[2], w)
+    if r:
+        return r + ":threadA"
+    w.clock0 = 5000
+    r = _monitor(tpset, evb, invsb, rb[0], rb[1], rb[2], w)
+    if r:
+        return r + ":threadB"
+    if not _store_empty():
+        return "C15:work-left-pending-when-the-thread-ended"
+    return ""
+
+
 def _mut_capture_wrong_value():
     from deep.processor.context.snapshot_action import DeferredSnapshotActionCallback
     orig = DeferredSnapshotActionCallback.process
@@ -336,13 +397,17 @@ MUTANTS = {"never_clear": _mut_never_clear, "close_twice": _mut_close_twice, "ca
 CONDITIONS = [
     dict(fn="stream", cubes={"quick": ["tp == %d and k == 3 and c1 == %d" % (t, c) for t in range(8) for c in range(7)] +
                                       ["tp == %d and k == 4 and c1 == 2 and c2 == %d" % (t, c) for t in (0, 2, 4) for c in range(7)],
-                             "thorough": ["tp == %d and k == %d and c1 == %d and c2 == %d" % (t, k, c, d) for t in range(8) for k in (4, 5) for c in range(7) for d in range(7)]},
+                             "thorough": ["tp == %d and k == 4 and c1 == %d" % (t, c) for t in range(8) for c in range(7)] +
+                                         ["tp == %d and k == 5 and c1 == 2 and c2 == %d" % (t, d) for t in (0, 1, 2, 3, 4) for d in range(7)]},
          twins=["reach", "mutant:never_close@tp == 1 and k == 3 and c1 == 2", "mutant:close_twice@tp == 0 and k == 3 and c1 == 2",
                 "mutant:capture_wrong_value@tp == 2 and k == 3 and c1 == 2"],
-         bounds="quick: all streams of 3 choices and the streams of 4 choices starting with call-f for 3 tracepoint subsets; thorough: all streams of 4-5 choices; "
+         bounds="quick: all streams of 3 choices and the streams of 4 choices starting with call-f for 3 tracepoint subsets; thorough: all streams of 4 choices and the streams of 5 starting with call-f; "
                 "7 choice kinds (line 1/2, call f/g, return, raise-caught, raise-propagate), 3 functions, 8 tracepoint subsets; one thread"),
+    dict(fn="interleaved", cubes={"quick": ["tp == %d and a1 == 2 and ka == %d" % (t, k) for t in (0, 1, 2, 3) for k in (2, 3)],
+                                  "thorough": ["tp == %d and a1 == %d and ka == %d" % (t, a, k) for t in (0, 1, 2, 3) for a in range(7) for k in (1, 2, 3, 4)]},
+         twins=["reach"], bounds="two live threads: A (3 choices) interrupted after ka events by B's whole stream (2 choices); single-tracepoint subsets"),
     dict(fn="two_threads", cubes={"quick": ["tp == %d and c1 == 2 and c2 == %d and c3 == 4 and d3 == 4" % (t, c) for t in (0, 1, 2, 4) for c in (0, 2)],
-                                  "thorough": ["tp == %d and c1 == %d and c2 == %d" % (t, c, d) for t in range(8) for c in (0, 2, 3) for d in range(7)]},
+                                  "thorough": ["tp == %d and c1 == %d and c2 == %d and c3 == 4" % (t, c, d) for t in range(8) for c in (0, 2) for d in range(7)]},
          twins=["reach", "mutant:never_close@tp == 0 and c1 == 2 and c2 == 0 and c3 == 4 and d3 == 4"],
          bounds="two sequential threads, 3 choices each (quick: first thread starts call f then line 1 | call f, both third choices = return), second thread with a fresh or a reused ident"),
 ]
